@@ -1,4 +1,5 @@
 import TcVerif.Props.C02
+import TcVerif.Proofs.SrcTransform
 /-!
 # C04 — An interrupted sync loses nothing and can simply be repeated
 
@@ -53,5 +54,10 @@ theorem C04_repeat_converges {S : Sys} (h : Reachable S) (r : Nat)
 theorem C04_never_stuck {S : Sys} (h : Reachable S) (r : Nat) (f : Flight)
     (hf : (S.reps r).fl = some f) (hp : f.pulled = true) (hk : f.k ≠ S.chain.length) :
     f.requested ≠ some S.chain.length := C02_reject_is_never_fatal h r f hf hp hk
+
+/-- the source's `SyncOp::transform` (regenerated from `src/server/op.rs` on every run) cancels an
+    operation against itself — what makes pulling one's own version after a lost reply harmless -/
+theorem C04_source_transform_self (x : SyncOp) : Src.transform x x = (none, none) := by
+  rw [src_transform_eq]; exact transform_self x
 
 end Tc
